@@ -113,9 +113,11 @@ def as_term(r):
     if r.q is not None:
         return _qterm(r.q)
     if not r.d:
-        return z3.simplify(r.n)
+        # sort_sums: a+b+c and c+a+b become the same term, so that POW / root / q! symbols are hash-consed
+        # modulo commutativity of + (z3's default simplifier keeps the order of the summands)
+        return z3.simplify(r.n, sort_sums=True)
     c = _axstore(_ctx.current())
-    sn = z3.simplify(r.n)
+    sn = z3.simplify(r.n, sort_sums=True)
     key = ("frac", sn.get_id(), r.d)
     if key in c._uf_apps:
         return c._uf_apps[key]
